@@ -49,6 +49,18 @@ def run(chk):
     R = OI.reflect()
     # 1. composeinfo: down-convert documents written by the library
     contents = [{"kind": "composeinfo", "content": DCo.gen_content(rng, "composeinfo", R)} for _ in range(N[chk.tier])]
+    for cont in contents:
+        # from format 0.3 on date/type/respin are stored next to the id and need not agree with it (a promoted nightly keeps its id)
+        if rng.random() < 0.4:
+            comp = cont["content"][0]
+            k = rng.random()
+            if k < 0.4:
+                comp["respin"] = comp["respin"] + 1
+            elif k < 0.7:
+                comp["type"] = rng.choice(R["COMPOSE_TYPES"])
+            else:
+                comp["date"] = "20150601"
+            cont["decoupled"] = True
     ir = core.ImplRunner("docs_corrupt", fn="impl_valid_doc", per_case_timeout=20.0)
     try:
         docs = ir.run(contents)
@@ -62,8 +74,9 @@ def run(chk):
         if isinstance(d, dict):
             tops = cont["content"][3]
             # before 1.0 parent/child is expressed by the UID prefix alone: only two levels, no dashed top-level UID
-            flat = max(depth(t) for t in tops.values()) <= 2 and not any("-" in t[0]["uid"] for t in tops.values())
-            for ver in ["1.1", "1.0"] + (["0.3", "0.2", "0.1"] if flat else []):
+            flat = max([depth(t) for t in tops.values()] or [0]) <= 2 and not any("-" in t[0]["uid"] for t in tops.values())
+            older = ["0.3"] if cont.get("decoupled") else ["0.3", "0.2", "0.1"]        # before 0.3 the facts exist only inside the id
+            for ver in ["1.1", "1.0"] + (older if flat else []):
                 cases.append({"fmt": "composeinfo", "text": json.dumps(DL.down_composeinfo(d, ver)), "doc": DL.down_composeinfo(d, ver),
                               "version": ver, "desc": cont["content"]})
     ir = core.ImplRunner("docs_legacy", fn="impl_upgrade", per_case_timeout=20.0)
@@ -104,7 +117,7 @@ def run(chk):
     other += [{"fmt": "rpms", "text": json.dumps(DL.gen_rpms_doc(rng, R, version=v))} for v in ["0.3", "0.2"] for _ in range(N[chk.tier] // 2)]
     # ... and the same documents against the model readers with the re-filing oracle (shared with C10): faithful mapping
     from props import C10 as P10
-    P10.legacy_suites(chk, rng, R, set(R["RPM_ARCHES"]), N[chk.tier])
+    P10.legacy_suites(chk, rng, R, set(R["RPM_ARCHES"]), N[chk.tier], full=True)
     # 3. treeinfo 1.1 / 1.0 (down-converted tables) and pre-productmd [general]-only trees
     tconts = [{"content": DT.gen_treeinfo(rng, R)} for _ in range(N[chk.tier])]
     ir = core.ImplRunner("docs_corrupt", fn="impl_valid_treeinfo", per_case_timeout=20.0)
